@@ -215,6 +215,11 @@ where
     ) -> bool {
         let mut is_success;
 
+        // a failed solve leaves its outputs untouched: start from zeros
+        variables.x.fill(T::zero());
+        variables.s.fill(T::zero());
+        variables.z.fill(T::zero());
+
         if data.P.nnz() == 0 {
             // LP initialization
             // solve with [0;b] as a RHS to get (x,-s) initializers
